@@ -128,7 +128,7 @@ package config
 //@ extern FileSystemOperation.createFileSystemBackUp
 //@   modifies nothing
 //@   allocates FileSystemBackUp, map
-//@   ensures[snapshot-of-disk] result1 == nil ==> snapOK(result0) && !old(allocated(result0)) && forall(p, string, in(p, result0.data) <==> fsdom[p]) && forall(p, string, fsdom[p] ==> result0.data[p] == fsys[p])
+//@   ensures[snapshot-of-disk] result1 == nil ==> snapOK(result0) && !old(allocated(result0)) && !allocated_at_entry(result0.data) && !allocated_at_entry(result0.dataMD5) && result0.data != result0.dataMD5 && forall(p, string, in(p, result0.data) <==> fsdom[p]) && forall(p, string, fsdom[p] ==> result0.data[p] == fsys[p])
 //@ extern FileSystemOperation.storeFileOnDisk
 //@   modifies fsdom, fsys
 //@   ensures[written] result == nil ==> fsdom[filePath] && fsys[filePath] == content
@@ -154,13 +154,15 @@ package config
 //@   requires fs != nil
 //@   modifies fs.backUp
 //@   allocates FileSystemBackUp, map
-//@   ensures[backup-is-the-disk] result == nil ==> snapOK(fs.backUp) && forall(p, string, in(p, fs.backUp.data) <==> fsdom[p]) && forall(p, string, fsdom[p] ==> fs.backUp.data[p] == fsys[p])
+//@   ensures[backup-is-the-disk] result == nil ==> snapOK(fs.backUp) && !allocated_at_entry(fs.backUp.data) && !allocated_at_entry(fs.backUp.dataMD5) && forall(p, string, in(p, fs.backUp.data) <==> fsdom[p]) && forall(p, string, fsdom[p] ==> fs.backUp.data[p] == fsys[p])
 
 // After a successful Restore the managed files are byte-for-byte those of the backup: same set of files, same content.
 //@ func (*FileSystemOperation).Restore
 //@   prop C08
 //@   requires fs != nil && snapOK(fs.backUp)
-//@   modifies fsdom, fsys
+//@   modifies fsdom, fsys, grestoreOK
+//@   on return do grestoreOK = (result == nil)
+//@   ensures[outcome-recorded] grestoreOK <==> result == nil
 //@   allocates FileSystemBackUp, map
 //@   loop 1 modifies fsdom, fsys
 //@   loop 1 invariant[restored-so-far] forall(p, string, in(p, seen1) ==> fsdom[p] && fsys[p] == fs.backUp.data[p])
@@ -217,3 +219,6 @@ package config
 
 // assumption: the five managed locations are different places (different directories, two different files outside them)
 //@ axiom[locations-disjoint] forall(a, string, forall(b, string, flowPath(a) != quotaPath(b) && flowPath(a) != paramsPath(b) && quotaPath(a) != paramsPath(b) && flowPath(a) != gatewayPath() && flowPath(a) != metricsPath() && quotaPath(a) != gatewayPath() && quotaPath(a) != metricsPath() && paramsPath(a) != gatewayPath() && paramsPath(a) != metricsPath())) && gatewayPath() != metricsPath()
+
+// whether the last Restore succeeded (ghost, read by the handlers' contracts)
+//@ ghost var grestoreOK bool
